@@ -125,7 +125,7 @@ def setup(tier, seed):
     _S.clear()
     _S['space'] = build_space(tier, seed)
     _S['lookups'] = lookup_tables(tier, seed)
-    _S['names'] = J.name_schemes(tier, seed)
+    _S['names'] = J.name_schemes(tier, seed) + J.keyform_schemes(tier, seed)
     _S['namedata'] = J.name_data(tier, seed)
     _S['edit'] = edit_tables(tier, seed)
 
@@ -618,14 +618,14 @@ def run_item(item, acc):
         return
     stats = {'transitions': 0}
     if kind == 'names':
-        lv, rv = _S['namedata']
         for sc in _S['names'][lo:hi]:
+            lv, rv = sc.get('data') or _S['namedata']
             for lvec in lv:
                 left = J.tagged_table(sc['lhdr'], sc['lk'], lvec, 'L')
                 for rvec in rv:
                     right = J.tagged_table(sc['rhdr'], sc['rk'], rvec, 'R')
                     for kw in sc['kw']:
-                        _do_pair(acc, 'names:' + sc['form'], left, right, kw, J.HASH_OPS, sc['kw'], stats)
+                        _do_pair(acc, sc['form'] if ':' in sc['form'] else 'names:' + sc['form'], left, right, kw, J.HASH_OPS, sc['kw'], stats)
         acc.transitions += stats['transitions']
         return
     v = _S['space'][name]
